@@ -98,11 +98,13 @@ Blank ==
       draws |-> 0,                             \* generator outputs consumed in this call
       lg    |-> FALSE,                         \* persistent: a logger is attached (core.logger # nullptr)
       log   |-> <<>>,                          \* what the attached logger was told in this call, in order
+      pexec |-> FALSE,                         \* the plan executor went through a plan's tasks in this call
       plog  |-> <<>>,                          \* plan API calls of this call: <<"a", 0|1>> append (result), <<"c", n>> clear (of n tasks), <<"r", 0|1>> remove, <<"w", tasks>> sweep
       rounds |-> <<>>,                         \* per round: <<"approved"|"vetoed"|"noop", requests>>
       over  |-> 0,                             \* requests rejected because the queue was full
       oa    |-> 0, osub |-> <<>>,              \* what isActive / activeSubState answer during this call's callbacks
       ope   |-> 0, opx |-> 0, opc |-> 0,       \* what isPending* answer during the current guard round
+      oreg  |-> <<>>,                          \* the requested prongs / remain marks / orthogonal request bits the guards of this round run under
       dev   |-> Dev,                           \* deviation switches in force (open findings modelled as the code behaves)
       notes |-> {},                            \* deviation switches that actually made a difference in this call
       sc    |-> EmptyScript ]
@@ -198,7 +200,9 @@ Observe(m, s, me) ==
         \* the regions' head / sub-state statuses accumulated so far in this call (result + 3 * outerTransition)
         IF b \in UpdateMethods \cup ReactMethods \cup PlanMethods
         THEN << StatusCodes(m.hst, 1), StatusCodes(m.sst, 1) >>
-        ELSE <<>>  >>
+        ELSE <<>>,
+        \* what the round under evaluation has requested (the registry the guards are asked about)
+        IF b \in GuardMethods THEN m.oreg ELSE <<>>  >>
 
 Event(m, s, me) == <<s, me>> \o Observe(m, s, me)
 
@@ -794,7 +798,14 @@ UpdateActivity(m) ==
         IF IsActive(m, s) THEN (IF a < 0 THEN 1 ELSE IF a < 127 THEN a + 1 ELSE a)
         ELSE (IF a > 0 THEN 0 - 1 ELSE IF a > 0 - 128 THEN a - 1 ELSE a)]]
 
-SnapshotPending(m) == [m EXCEPT !.ope = PendEMask(m), !.opx = PendXMask(m), !.opc = PendCMask(m)]
+\* (explicit tuples, see StatusCodes)
+RECURSIVE ReqTuple(_, _), RemTuple(_, _), OreqTuple(_, _), BitTuple(_, _, _)
+ReqTuple(m, c) == IF c > COMPO_COUNT THEN <<>> ELSE <<m.req[c]>> \o ReqTuple(m, c + 1)
+RemTuple(m, c) == IF c > COMPO_COUNT THEN <<>> ELSE <<IF c \in m.rem THEN 1 ELSE 0>> \o RemTuple(m, c + 1)
+BitTuple(set, p, w) == IF p > w THEN <<>> ELSE <<IF p \in set THEN 1 ELSE 0>> \o BitTuple(set, p + 1, w)
+OreqTuple(m, x) == IF x > ORTHO_COUNT THEN <<>> ELSE <<BitTuple(m.oreq[x], 1, St[OrthoHead(x)].width)>> \o OreqTuple(m, x + 1)
+SnapshotPending(m) == [m EXCEPT !.ope = PendEMask(m), !.opx = PendXMask(m), !.opc = PendCMask(m),
+                                !.oreg = <<ReqTuple(m, 1), RemTuple(m, 1), OreqTuple(m, 1)>>]
 
 ApprovedByGuards(m) ==
     LET g  == SnapshotPending(NewControl(m))
@@ -1009,7 +1020,7 @@ UpdatePlan(m, head, sub) ==
                             IN Loop(IF cyc THEN [m2 EXCEPT !.succ = @ \ {t[1]}] ELSE m2,
                                     i + 1, removed \cup {i}, IF cyc THEN deferred ELSE deferred \cup {t[1]})
                          ELSE Loop(mm, i + 1, removed, deferred)
-            IN Loop(m, 1, {}, {})
+            IN Loop([m EXCEPT !.pexec = TRUE], 1, {}, {})
         ELSE
             LET m2 == FirePlan(Log([m EXCEPT !.ts.r = 1], <<"ps", m.rs, "succeeded">>), head, "planSucceeded")
             IN [m2 EXCEPT !.rv = [r |-> m2.ts.r, ot |-> FALSE]]
@@ -1154,7 +1165,7 @@ ReplayEnter(m, list) ==
 (* `sc` the script for this call.                                          *)
 
 BeginCall(m, sc) ==
-    [NewControl(m) EXCEPT !.notes = {}, !.ev = <<>>, !.draws = 0, !.plog = <<>>, !.log = <<>>, !.rounds = <<>>, !.over = 0, !.ok = TRUE, !.rv = TSNone,
+    [NewControl(m) EXCEPT !.notes = {}, !.ev = <<>>, !.draws = 0, !.plog = <<>>, !.log = <<>>, !.pexec = FALSE, !.rounds = <<>>, !.over = 0, !.ok = TRUE, !.rv = TSNone,
                           !.pend = <<>>, !.cur = <<>>, !.sc = sc,
                           !.oa = ActiveMask(m), !.osub = SubList(m)]
 
